@@ -563,7 +563,11 @@ Definition first_nz (l : list N) : N := fold_right (fun x acc => if N.eqb x 0 th
    one property's violation cannot hide another's *)
 Definition code_sel (sel code : N) : N :=
   if N.eqb sel 0 then code
-  else if N.eqb (code / 10) sel then code else 0%N.
+  else if N.eqb (code / 10) sel then code
+  (* C01 also owns "an accepted death/departure is recorded at the incarnation it carried" (147): the view
+     must move forward to the claim, or older claims get through afterwards *)
+  else if N.eqb sel 11 && N.eqb code 147 then code
+  else 0%N.
 
 (* walk the observed trace *)
 Fixpoint monitor_from (sel : N) (c : cfg) (i : N) (pre : osnap) (view : list (N * (N * N))) (linc_leave : option N) (tr : strack)
